@@ -1,6 +1,6 @@
 (** * Oracle: invariants of the model and the C17 lemmas (induction over histories) *)
 From Irismod Require Import Oracle.Model Oracle.Check Oracle.ProofsList.
-From Coq Require Import ZifyBool.
+From Coq Require Import ZifyBool QArith.
 Open Scope Z_scope.
 
 (** ** Sets of names *)
@@ -848,8 +848,9 @@ Lemma pause_values s name sender n : query_values (snd (do_pause s name sender))
 Proof. unfold do_pause. destruct_matches; reflexivity. Qed.
 
 (** (d) an edit keeps exactly the newest [latest_history] values (all of them when it grows) *)
+Definition is_ok (o : outcome) : bool := match o with Ok => true | _ => false end.
 Definition edit_applies (s : state) (a : edit_args) (n : Z) : bool :=
-  (e_name a =? n) && (0 <? e_lh a) && eqb (fst (do_edit s a)) Ok.
+  (e_name a =? n) && (0 <? e_lh a) && is_ok (fst (do_edit s a)).
 
 Lemma edit_values s a n :
   query_values (snd (do_edit s a)) n =
@@ -857,8 +858,8 @@ Lemma edit_values s a n :
 Proof.
   unfold edit_applies.
   destruct (do_edit_cases s a) as [[E1 E2]|(f & x & x' & Hb & Hf & Hs & Hx & Hu & Hok & FV & _)].
-  - rewrite E1, E2. replace (eqb Rej Ok) with false by reflexivity. rewrite andb_false_r. reflexivity.
-  - rewrite Hok. replace (eqb Ok Ok) with true by reflexivity. rewrite andb_true_r.
+  - rewrite E1, E2. cbn [is_ok]. rewrite andb_false_r. reflexivity.
+  - rewrite Hok. cbn [is_ok]. rewrite andb_true_r.
     rewrite !query_values_newest, FV. unfold edit_result. cbv zeta.
     destruct (0 <? e_lh a) eqn:Hpos.
     + rewrite andb_true_r. unfold feed_vals at 1. unfold set_feed, set_vals, set_ctx. cbn [vals].
@@ -1100,3 +1101,173 @@ Proof.
     destruct (IH _ name f1 (Inv_exec s st HI) Hf1) as (f2 & Hf2 & J1 & J2 & J3 & J4).
     exists f2. split; [exact Hf2|]. unfold same_identity. repeat split; congruence.
 Qed.
+
+(** ** The statements over whole histories, from the initial state *)
+
+Lemma reachable_Inv h : Inv (run init h).
+Proof. apply Inv_run. exact Inv_init. Qed.
+
+Lemma reachable_Keys h : run_wfb init h = true -> KeysInv (run init h).
+Proof. intros Hwf. apply Keys_run; [exact Inv_init|exact KeysInv_init|exact Hwf]. Qed.
+
+Lemma one_value_per_successful_batch_lemma :
+  forall (h : list step) (now c bc bthr : Z) (outs : list output) (tol : Z) (x : sctx) (name : Z) (f : feed),
+    run_wfb init h = true ->
+    let s := run init h in
+    get c (ctxs s) = Some x -> feed_by_ctx s c = Some (name, f) -> x_open x = true ->
+    let s' := snd (do_sev s now (SDone c bc bthr outs tol)) in
+    1 <= x_bthr x
+    /\ (forall n, n <> name -> query_values s' n = query_values s n)
+    /\ query_values s' name =
+       if x_bthr x <=? Z.of_nat (length outs)
+       then (aggregate (f_agg f) (map (extract (f_path f)) outs), now)
+              :: firstn (Z.to_nat (f_lh f - 1)) (query_values s name)
+       else query_values s name.
+Proof.
+  intros h now c bc bthr outs tol x name f Hwf s Hx Hfb Hopen.
+  pose proof (reachable_Inv h) as HI. pose proof (reachable_Keys h Hwf) as HK.
+  destruct (inv_ctx _ HI _ _ Hx) as (_ & _ & T2 & _). split; [exact T2|].
+  exact (batch_completion_lemma _ now c bc bthr outs tol x name f HI HK Hx Hfb Hopen).
+Qed.
+
+(** everything else leaves every stored value alone, except that a successful edit trims *)
+Lemma values_change_only_by_batches_and_edits_lemma :
+  forall (h : list step) (st : step) (n : Z),
+    let s := run init h in
+    match snd st with
+    | OSvc _ => True
+    | OEdit a => query_values (exec_state s st) n =
+                 if edit_applies s a n then firstn (Z.to_nat (e_lh a)) (query_values s n) else query_values s n
+    | _ => query_values (exec_state s st) n = query_values s n
+    end.
+Proof.
+  intros h [now o] n s. unfold exec_state. destruct o; cbn [snd fst exec].
+  - apply create_values.
+  - apply start_values.
+  - apply pause_values.
+  - apply edit_values.
+  - reflexivity.
+  - exact I.
+Qed.
+
+Lemma sev_other_than_completion_lemma :
+  forall (s : state) (now : Z) (e : sev) (n : Z),
+    (forall c bc bthr outs tol, e <> SDone c bc bthr outs tol) ->
+    query_values (snd (do_sev s now e)) n = query_values s n.
+Proof. intros. apply sev_values_frame. assumption. Qed.
+
+Lemma value_is_configured_aggregate_lemma :
+  forall (agg : Z) (p : Z) (o : output) (outs : list output),
+    in_range (extract p o) ->
+    let data := map (extract p) (o :: outs) in
+    exists a : q, qwf a /\ aggregate agg data = round8 a
+      /\ (agg = AGG_MAX -> is_max a data)
+      /\ (agg = AGG_MIN -> is_min a data)
+      /\ (agg <> AGG_MAX -> agg <> AGG_MIN ->
+          (toQ a == Qsum (map toQ data) / inject_Z (Z.of_nat (length data)))%Q).
+Proof.
+  intros agg p o outs Hr data.
+  assert (Hwf : Forall qwf data) by apply extract_all_wf.
+  assert (Hne : data <> []) by (unfold data; simpl; discriminate).
+  destruct Hr as [Hr1 Hr2].
+  unfold aggregate. unfold AGG_MAX, AGG_MIN in *. destruct (agg =? 0) eqn:E1; [|destruct (agg =? 1) eqn:E2].
+  - exists (agg_max data). unfold data. simpl map. rewrite agg_max_spec by exact Hr1.
+    pose proof (spec_max_is_max _ _ Hwf) as Hm. split.
+    + destruct Hm as [Hin _]. rewrite Forall_forall in Hwf. apply Hwf. exact Hin.
+    + split; [reflexivity|]. split; [intros _; exact Hm|]. split; intros; lia.
+  - exists (agg_min data). unfold data. simpl map. rewrite agg_min_spec by exact Hr2.
+    pose proof (spec_min_is_min _ _ Hwf) as Hm. split.
+    + destruct Hm as [Hin _]. rewrite Forall_forall in Hwf. apply Hwf. exact Hin.
+    + split; [reflexivity|]. split; [intros; lia|]. split; [intros _; exact Hm|]. intros; lia.
+  - exists (agg_avg data). split; [apply agg_avg_wf; assumption|]. split; [reflexivity|].
+    split; [intros; lia|]. split; [intros; lia|]. intros _ _. apply agg_avg_is_mean; assumption.
+Qed.
+
+Lemma rounded_to_8_decimals_lemma :
+  forall (n d : Z), 0 < d ->
+    let r := round8 (n, d) in
+    2 * Z.abs (r * d - n * scale8) <= d
+    /\ (2 * Z.abs (r * d - n * scale8) = d -> Z.even r = true)
+    /\ (forall z, Z.abs (r * d - n * scale8) <= Z.abs (z * d - n * scale8)).
+Proof.
+  intros n d Hd r. destruct (round8_nearest n d Hd) as [H1 H2]. split; [exact H1|]. split; [exact H2|].
+  intros z. apply round8_best. exact Hd.
+Qed.
+
+Lemma keeps_newest_latest_history_lemma :
+  forall (h : list step) (name : Z),
+    run_wfb init h = true ->
+    let L := ledger_run init h name ([], 0) in
+    query_values (run init h) name = firstn (Z.to_nat (snd L)) (fst L)
+    /\ 0 <= snd L <= Z.of_nat (length (fst L))
+    /\ (forall f, get name (feeds (run init h)) = Some f -> snd L <= f_lh f <= MaxLatestHistory).
+Proof.
+  intros h name Hwf L.
+  destruct (ledger_run_ok h init name ([], 0) Inv_init KeysInv_init Hwf (ledger_ok_init name)) as [Hq Hb].
+  fold L in Hq, Hb. split; [exact Hq|]. split; [exact Hb|].
+  intros f Hf. destruct (stored_at_most_lh _ name f (reachable_Inv h) Hf) as [Hlen Hlh].
+  rewrite Hq, firstn_length in Hlen. lia.
+Qed.
+
+(** the two rules of the ledger, spelled out *)
+Lemma ledger_rule_batch_lemma :
+  forall (s : state) (now name c bc bthr : Z) (outs : list output) (tol : Z) (x : sctx) (f : feed) (L : ledger),
+    get c (ctxs s) = Some x -> feed_by_ctx s c = Some (name, f) ->
+    ledger_sev s now name (SDone c bc bthr outs tol) L =
+    if x_bthr x <=? Z.of_nat (length outs)
+    then ((aggregate (f_agg f) (map (extract (f_path f)) outs), now) :: fst L, Z.min (f_lh f) (snd L + 1))
+    else L.
+Proof. intros. unfold ledger_sev. rewrite H, H0, Z.eqb_refl. reflexivity. Qed.
+
+Lemma ledger_rule_edit_lemma :
+  forall (s : state) (now : Z) (a : edit_args) (L : ledger),
+    0 < e_lh a -> fst (do_edit s a) = Ok ->
+    ledger_step s (now, OEdit a) (e_name a) L = (fst L, Z.min (snd L) (e_lh a)).
+Proof.
+  intros s now a L Hpos Hok. unfold ledger_step, edit_applies. cbn [snd]. rewrite Hok, Z.eqb_refl.
+  destruct (0 <? e_lh a) eqn:E; [reflexivity|lia].
+Qed.
+
+Lemma state_mirrors_context_lemma :
+  forall (h : list step) (name : Z),
+    let s := run init h in
+    match get name (feeds s) with
+    | Some f => exists x, get (f_ctx f) (ctxs s) = Some x
+                  /\ (x_state x = RUNNING \/ x_state x = PAUSED)
+                  /\ (smem name (idx_run s) = true <-> x_state x = RUNNING)
+                  /\ (smem name (idx_pau s) = true <-> x_state x = PAUSED)
+    | None => smem name (idx_run s) = false /\ smem name (idx_pau s) = false
+    end.
+Proof.
+  intros h name s. destruct (get name (feeds s)) as [f|] eqn:Hf.
+  - apply mirror_lemma; [apply reachable_Inv|exact Hf].
+  - apply unknown_feed_not_indexed; [apply reachable_Inv|exact Hf].
+Qed.
+
+Lemma auto_pause_mirrored_lemma :
+  forall (h : list step) (now c : Z) (x : sctx),
+    let s := run init h in
+    get c (ctxs s) = Some x ->
+    exists name f, feed_by_ctx s c = Some (name, f) /\
+      let s' := snd (do_sev s now (SAutoPause c)) in
+      (exists x', get c (ctxs s') = Some x' /\ x_state x' = PAUSED)
+      /\ smem name (idx_run s') = false /\ smem name (idx_pau s') = true.
+Proof.
+  intros h now c x s Hx. pose proof (reachable_Inv h) as HI.
+  destruct (ctx_has_feed _ c x HI Hx) as (name & f & Hfb & _). exists name, f. split; [exact Hfb|].
+  exact (auto_pause_lemma _ now c x name f HI Hx Hfb).
+Qed.
+
+Lemma creator_is_permanent_lemma :
+  forall (h h' : list step) (name : Z) (f : feed),
+    get name (feeds (run init h)) = Some f ->
+    exists f', get name (feeds (run init (h ++ h'))) = Some f' /\ same_identity f f'.
+Proof.
+  intros h h' name f Hf.
+  assert (E : forall l s, run s (l ++ h') = run (run s l) h').
+  { induction l as [|st l IH]; intros s; simpl; [reflexivity|apply IH]. }
+  rewrite E. apply feed_identity_run; [apply reachable_Inv|exact Hf].
+Qed.
+
+Lemma no_panic_lemma : forall (h : list step) (st : step), fst (exec (run init h) st) <> Abort.
+Proof. intros h st. apply exec_no_abort. apply reachable_Inv. Qed.
